@@ -650,7 +650,15 @@ func (conn *Conn) closeSock(sock net.Conn) error {
 	// have filled. See TestSendDeadlockOnFullBuffer in connection_test.go.
 	conn.drainIn()
 	conn.drainOut()
+	// Draining once is not enough: recv may still be forwarding lines it had
+	// already buffered and handlers may still be sending, so either queue can
+	// fill up again and block them for ever while we wait for them below.
+	// Keep both queues drained until all of the connection's goroutines have
+	// gone.
+	stop := make(chan struct{})
+	go drainUntil(conn.in, conn.out, stop)
 	conn.wg.Wait()
+	close(stop)
 	conn.mu.Unlock()
 	// Dispatch after closing connection but before reinit
 	// so event handlers can still access state information.
@@ -675,6 +683,18 @@ func (conn *Conn) drainOut() {
 		select {
 		case <-conn.out:
 		default:
+			return
+		}
+	}
+}
+
+// drainUntil discards everything sent to in and out until stop is closed.
+func drainUntil(in chan *Line, out chan string, stop chan struct{}) {
+	for {
+		select {
+		case <-in:
+		case <-out:
+		case <-stop:
 			return
 		}
 	}
